@@ -5,6 +5,7 @@ import (
 	"os"
 	"strings"
 	"sync"
+	"time"
 
 	"github.com/AdguardTeam/urlfilter"
 	"github.com/AdguardTeam/urlfilter/filterlist"
@@ -229,7 +230,8 @@ func init() {
 	register("C13", "model_checking", func(c *Ctx) {
 		scen.FileDir = os.Getenv("VERIF_WORK")
 		shim.Deterministic = true
-		defer func() { shim.Deterministic = false }()
+		shim.DeadlockWait = 5 * time.Second
+		defer func() { shim.Deterministic = false; shim.DeadlockWait = 0 }()
 		ops := c13Ops()
 		total := statespace.Stats{}
 		var statsOut []map[string]any
